@@ -2,6 +2,7 @@
 They are the search-for-a-failing-input part of the checks (never a substitute for the theorems).
 Each monitor returns a list of violations: dict(cls=<class id or None>, what=<text>)."""
 from trace import garbles, qos0_partial,  parse_trace, connections, list_field
+import re
 import mqttspec
 
 NETOPS = {1, 2, 3, 4, 5, 6, 7}
@@ -555,9 +556,26 @@ def mon_c03(case_line, acts):
             per_action.setdefault(ev[4], []).append(('rx', ev[2], ev[3]))
     sent_q2 = set()       # QoS 2 identifiers whose PUBLISH has been written completely
     pubrec_seen = set()   # ... and for which a successful PUBREC has been consumed since
+    rec_order = []        # reference: identifiers awaiting PUBCOMP in the order their PUBRECs were consumed
     for i, a in enumerate(acts):
         prev = acts[i - 1].state if i > 0 else {}
         rel_before = [int(x.split(':')[0]) for x in list_field((prev or {}).get('rel', '[]'))]
+        if a.code == 0 and a.result == 'ok connected':
+            rec_order = []
+        for ev in per_action.get(i, []):
+            if ev[0] == 'rx' and len(ev[2]) >= 2:
+                pid = (ev[2][0] << 8) | ev[2][1]
+                if ev[1] >> 4 == 5 and (len(ev[2]) < 3 or ev[2][2] < 0x80) and pid not in rec_order:
+                    rec_order.append(pid)
+                if ev[1] >> 4 == 7 and pid in rec_order:
+                    rec_order.remove(pid)
+        if a.state is not None:
+            rel_after = [int(x.split(':')[0]) for x in list_field(a.state.get('rel', '[]'))]
+            rec_order = [p_ for p_ in rec_order if p_ in rel_after]      # stale PUBRECs never entered the list
+            if sorted(rec_order) == sorted(rel_after) and rec_order != rel_after and len(set(rel_after)) == len(rel_after):
+                out.append(V('after action #%d the release list is %s but the PUBRECs were received in the order %s: '
+                             'replayed PUBRELs would not keep the PUBREC order' % (i, rel_after, rec_order)))
+                rec_order = list(rel_after)
         owed = set(rel_before)
         released = set()
         last = -1
@@ -607,8 +625,14 @@ def mon_c05(case_line, acts):
     handle and empties the in-flight lists; a resumed one keeps them"""
     out = []
     succeeded = False
+    discarded = 0      # handles 0..discarded-1 were issued before the latest fresh session: invalidated for good
     for i, a in enumerate(acts):
         if a.code != 0:
+            hs = list_field((a.state or {}).get('h', '[]'))
+            if a.state is not None and any(h != 'I' for h in hs[:discarded]):
+                out.append(V('after action #%d handles issued before the fresh session report %s instead of invalidated'
+                             % (i, hs[:discarded])))
+                discarded = 0      # report once
             continue
         wire = b''.join(bytes.fromhex(e[3]) for e in a.events if e[0] == 'w' and e[2])
         pk, tail, problems = mqttspec.parse_client_stream(wire, strict_flags=False)
@@ -624,6 +648,8 @@ def mon_c05(case_line, acts):
             hs = list_field(st.get('h', '[]'))
             if any(h != 'I' for h in hs[:nprev]):
                 out.append(V('fresh session at action #%d left earlier handles %s' % (i, hs[:nprev])))
+            else:
+                discarded = nprev
             if st.get('ret') != '[]' or st.get('rel') != '[]' or st.get('srv') != '[]':
                 out.append(V('fresh session at action #%d kept in-flight state ret=%s rel=%s srv=%s'
                              % (i, st.get('ret'), st.get('rel'), st.get('srv'))))
@@ -1341,4 +1367,312 @@ def mon_c16(case_line, acts):
         problems.append('%d operation handle(s) still pending' % len(pend))
     if problems:
         out.append(V('after %d polls against a responsive broker: %s' % (sum(1 for a in tail if a.code == 6), '; '.join(problems))))
+    return out
+
+
+# ---------------------------------------------------------------- C09: encoders decoded back by the independent parser
+class _Toks:
+    def __init__(self, line):
+        self.t = [int(x) for x in line.split()]
+        self.i = 0
+
+    def n(self):
+        v = self.t[self.i]
+        self.i += 1
+        return v
+
+    def bytes(self):
+        k = self.n()
+        v = bytes(self.t[self.i:self.i + k])
+        self.i += k
+        return v
+
+    def opt(self, f):
+        return f() if self.n() else None
+
+    def list(self, f):
+        return [f() for _ in range(self.n())]
+
+    def prop(self):
+        from casegen import PROP_IDS, SHAPE
+        k, num, d1, d2 = self.n(), self.n(), self.bytes(), self.bytes()
+        pid = PROP_IDS[k]
+        sh = SHAPE[pid]
+        return (pid, num if sh in 'b24v' else d1 if sh in 'sd' else (d1, d2))
+
+
+REASON_CODES = {0x00, 0x01, 0x02, 0x04, 0x10, 0x11, 0x18, 0x19, 0x80, 0x81, 0x82, 0x83, 0x84, 0x85, 0x86, 0x87, 0x88, 0x89, 0x8c,
+                0x8d, 0x8e, 0x8f, 0x90, 0x91, 0x92, 0x93, 0x94, 0x95, 0x96, 0x97, 0x98, 0x99, 0x9a, 0x9b, 0x9c, 0x9d, 0x9e, 0x9f,
+                0xa0, 0xa1, 0xa2, 0xff}
+
+
+def _illegal_input(err):
+    return any(x in err for x in ('is not allowed in', 'flag property', 'Topic Alias 0', 'Subscription Identifier', 'appears twice',
+                                  'U+0000', 'empty topic', 'without topic filter', 'packet identifier 0', 'Receive Maximum 0',
+                                  'Maximum Packet Size 0', 'invalid UTF-8', 'subscription options', 'will flags'))
+
+
+def mon_encode(case_line, impl_out):
+    """cmds 4, 6, 7, 8 (CONNECT, SUBSCRIBE, UNSUBSCRIBE, DISCONNECT encoders): whatever the encoder emits is exactly one
+    packet which the independent MQTT 5 parser decodes to precisely the request"""
+    cmd = case_line.split(' ', 1)[0]
+    if cmd not in ('4', '6', '7', '8') or not impl_out.startswith('OK '):
+        return []
+    m = re.search(r' x([0-9a-f]*)$', impl_out)
+    if not m:
+        return []
+    raw = bytes.fromhex(m.group(1))
+    t = _Toks(case_line)
+    t.n()
+    t.n()   # cmd, capacity
+    pk, tail, problems = mqttspec.parse_client_stream(raw, strict_flags=True)
+    if len(pk) != 1 or tail:
+        return [V('the encoder output is not exactly one packet: %d packets, %d trailing bytes (%s)' % (len(pk), len(tail), raw.hex()[:80]))]
+    p = pk[0]
+    if p['type'] == 'MALFORMED':
+        if _illegal_input(p['error']):
+            return []     # the hook encodes unvalidated requests: illegal user input is C19's subject
+        return [V('the encoder output does not parse: %s (%s)' % (p['error'], raw.hex()[:100]))]
+    out = []
+
+    def same(what, got, want):
+        if got != want:
+            out.append(V('%s on the wire is %r, requested %r (%s)' % (what, got, want, raw.hex()[:100])))
+
+    if cmd == '4':
+        ka = t.n()
+        props = t.list(t.prop)
+        cid = t.bytes()
+        auth = t.opt(lambda: (t.bytes(), t.bytes()))
+        will = t.opt(lambda: dict(topic=t.bytes(), payload=t.bytes(), qos=t.n(), retain=bool(t.n()), props=t.list(t.prop)))
+        clean = bool(t.n())
+        same('type', p['type'], 'CONNECT')
+        same('keep-alive', p.get('keepalive'), ka)
+        same('clean start', p.get('clean_start'), clean)
+        same('client id', p.get('client_id'), cid)
+        same('CONNECT properties', p.get('props'), props)
+        same('user name', p.get('user'), auth[0] if auth else None)
+        same('password', p.get('password'), auth[1] if auth else None)
+        if will is None:
+            same('will', p.get('will'), None)
+        else:
+            same('will', p.get('will'), will)
+    elif cmd == '6':
+        pid = t.n()
+        props = t.list(t.prop)
+        topics = t.list(lambda: (t.bytes(), t.n(), t.n(), t.n(), t.n()))
+        same('type', p['type'], 'SUBSCRIBE')
+        same('identifier', p.get('pid'), pid)
+        same('SUBSCRIBE properties', p.get('props'), props)
+        same('filters', p.get('topics'), [(n, q | (nl << 2) | (rap << 3) | (rh << 4)) for n, q, nl, rap, rh in topics])
+    elif cmd == '7':
+        pid = t.n()
+        props = t.list(t.prop)
+        topics = t.list(t.bytes)
+        same('type', p['type'], 'UNSUBSCRIBE')
+        same('identifier', p.get('pid'), pid)
+        same('UNSUBSCRIBE properties', p.get('props'), props)
+        same('filters', p.get('topics'), topics)
+    else:
+        reason = t.opt(t.n)
+        props = t.opt(lambda: t.list(t.prop))
+        same('type', p['type'], 'DISCONNECT')
+        # the request holds a ReasonCode enum value: the harness maps a token that names no variant to ReasonCode::Unknown
+        same('reason', p.get('reason'), (reason if reason in REASON_CODES else 0xFF) if reason is not None else 0)
+        same('DISCONNECT properties', p.get('props') or [], props or [])
+    return out
+
+
+# ---------------------------------------------------------------- C18: reference status of every handle
+def mon_c18_ref(case_line, acts):
+    """reference computation of each handle's status from the packets the client consumed: complete exactly after its
+    own final acknowledgement (PUBACK; PUBCOMP after PUBREC, or a failing PUBREC; SUBACK; UNSUBACK) in the session it
+    was issued in, invalidated exactly after a CONNACK without session present, pending otherwise.  An acknowledgement
+    whose type does not fit the operation holding that identifier (a broker error outside the property's quantifier)
+    makes that handle's status unspecified."""
+    out = []
+    fl = Flow(acts)
+    rx = {}
+    for ev in fl.events:
+        if ev[0] == 'rx':
+            rx.setdefault(ev[4], []).append((ev[2], ev[3]))
+    H = []       # dicts: kind, pid, st in P C I U, phase
+    FINAL = {0: 4, 2: 9, 3: 11}
+    for i, a in enumerate(acts):
+        evs = rx.get(i, [])
+        if a.result == 'err InvalidPacket' and evs:
+            evs = evs[:-1]                      # the last packet read was rejected, not consumed
+        if a.code == 0:
+            evs = []                            # the handshake consumes the CONNACK only
+            if a.result == 'ok connected':
+                for h in H:
+                    h['st'] = 'I'
+        for first, body in evs:
+            typ = first >> 4
+            if typ not in (4, 5, 7, 9, 11) or len(body) < 2:
+                continue
+            pid = (body[0] << 8) | body[1]
+            cand = [h for h in H if h['pid'] == pid and h['st'] == 'P']
+            if not cand:
+                continue
+            h = cand[-1]
+            if len(cand) > 1:
+                for x in cand:
+                    x['st'] = 'U'               # two pending handles with one identifier: C07's subject
+                continue
+            if typ == 7:
+                if h['kind'] == 1 and h['phase'] == 'rel':
+                    h['st'] = 'C'
+                continue
+            if typ == 5 and h['kind'] == 1:
+                if h['phase'] == 'pub':
+                    if len(body) >= 3 and body[2] >= 0x80:
+                        h['st'] = 'C'
+                    else:
+                        h['phase'] = 'rel'
+                continue
+            if h['kind'] == 1 and h['phase'] == 'rel':
+                continue                        # PUBACK / SUBACK naming an exchange that is past its PUBLISH: no retained entry
+            if FINAL.get(h['kind']) == typ:
+                h['st'] = 'C'
+            else:
+                h['st'] = 'U'
+        if a.code in (1, 2, 3) and (a.result or '').startswith('ok op '):
+            f = a.result.split(' ')
+            H.append({'kind': int(f[2]), 'pid': int(f[3]), 'st': 'P', 'phase': 'pub'})
+        if a.state is None:
+            continue
+        hs = list_field(a.state.get('h', '[]'))
+        for k, (h, got) in enumerate(zip(H, hs)):
+            if got.startswith('X'):
+                out.append(V('handle %d answers is_invalidated/is_pending/is_complete = %s after action #%d' % (k, got[1:], i)))
+                return out
+            if h['st'] != 'U' and got != h['st']:
+                names = {'P': 'pending', 'C': 'complete', 'I': 'invalidated'}
+                out.append(V('handle %d (kind %d, identifier %d) reports %s after action #%d; by the acknowledgements consumed '
+                             'so far it is %s' % (k, h['kind'], h['pid'], names.get(got, got), i, names[h['st']])))
+                return out
+    return out
+
+
+# ---------------------------------------------------------------- the requests of a session case (token line -> values)
+def parse_case(line):
+    """-> {'cfg': {...}, 'actions': [(code, request dict or None)]} for a session case line (command 10)"""
+    t = _Toks(line)
+    if t.n() != 10:
+        return None
+    cfg = dict(rx=t.n(), tx=t.n(), cid=t.bytes(), ka=t.n(), expiry=t.n(), downgrade=bool(t.n()))
+    cfg['will'] = t.opt(lambda: dict(topic=t.bytes(), payload=t.bytes(), qos=t.n(), retain=bool(t.n()), props=t.list(t.prop)))
+    cfg['auth'] = t.opt(lambda: (t.bytes(), t.bytes()))
+    actions = []
+    for _ in range(t.n()):
+        code = t.n()
+        req = None
+        if code == 0:
+            req = t.list(lambda: (t.n(), t.bytes()))
+        elif code == 1:
+            topic = t.bytes()
+            corr = t.opt(t.bytes)
+            req = dict(topic=topic, corr=corr, props=t.list(t.prop), qos=t.n(), payload=t.bytes(), retain=bool(t.n()))
+        elif code == 2:
+            req = dict(props=t.list(t.prop), topics=t.list(lambda: (t.bytes(), t.n(), t.n(), t.n(), t.n())))
+        elif code == 3:
+            req = dict(props=t.list(t.prop), topics=t.list(t.bytes))
+        elif code == 4:
+            req = dict(reason=t.opt(t.n), props=t.opt(lambda: t.list(t.prop)))
+        elif code == 8:
+            req = (t.n(), t.bytes())
+        elif code in (9, 12, 13):
+            req = t.n()
+        actions.append((code, req))
+    return {'cfg': cfg, 'actions': actions}
+
+
+def mon_c19_handle(case_line, acts):
+    """the handle returned by publish() matches the QoS actually used on the wire, and a publish that reports
+    success put exactly the requested topic and payload on the wire: `Ok(None)` <=> a QoS 0 PUBLISH without identifier,
+    `Ok(handle)` <=> a QoS 1 / QoS 2 PUBLISH (by handle kind) carrying the handle's identifier; never above the
+    broker's Maximum QoS when auto-downgrade is configured"""
+    out = []
+    case = parse_case(case_line)
+    if case is None or len(case['actions']) != len(acts):
+        return out
+    fl = Flow(acts)
+    tx = {}
+    for ev in fl.events:
+        if ev[0] == 'tx':
+            tx.setdefault(ev[3], []).append(ev[2])
+    for i, a in enumerate(acts):
+        code, req = case['actions'][i]
+        if code != 1 or a.code != 1 or not (a.result or '').startswith('ok '):
+            continue
+        prev = acts[i - 1].state if i > 0 else None
+        pubs = [p for p in tx.get(i, []) if p['type'] in ('PUBLISH', 'MALFORMED') and p['first'] >> 4 == 3 and not (p['first'] & 8)]
+        if a.result == 'ok none':
+            mine = [p for p in pubs if (p['first'] >> 1) & 3 == 0]
+            if len(mine) != 1 or len(pubs) != 1:
+                # the packet may have been cut off by a fault that the call did not report: only a complete packet is judged
+                continue
+            p = mine[0]
+            if p['type'] == 'MALFORMED':
+                if _illegal_input(p['error']):
+                    continue          # an illegal request (empty topic, illegal property): not this monitor's subject
+                out.append(V('publish() at action #%d returned Ok(None) and wrote a malformed QoS 0 PUBLISH: %s (%s)'
+                             % (i, p['error'], p['raw'].hex()[:80])))
+            elif p['topic'] != req['topic'] or p['payload'] != req['payload']:
+                out.append(V('publish() at action #%d returned Ok(None); the QoS 0 PUBLISH on the wire has topic %r payload %s, '
+                             'requested topic %r payload %s (%s)' % (i, p['topic'], p['payload'].hex()[:40], req['topic'],
+                                                                   req['payload'].hex()[:40], p['raw'].hex()[:80])))
+        else:
+            f = a.result.split(' ')
+            kind, pid = int(f[2]), int(f[3])
+            want = {0: 1, 1: 2}.get(kind)
+            mine = [p for p in pubs if p['type'] == 'PUBLISH' and p.get('pid') == pid]
+            zero = [p for p in pubs if (p['first'] >> 1) & 3 == 0]
+            if zero:
+                out.append(V('publish() at action #%d returned a handle (kind %d, identifier %d) and wrote a QoS 0 PUBLISH (%s)'
+                             % (i, kind, pid, zero[0]['raw'].hex()[:80])))
+            for p in mine:
+                if p['qos'] != want:
+                    out.append(V('publish() at action #%d returned a handle of kind %d; the PUBLISH %d on the wire has QoS %d'
+                                 % (i, kind, pid, p['qos'])))
+        if prev and case['cfg']['downgrade'] and prev.get('maxqos', '-') not in ('-', '?'):
+            for p in pubs:
+                if p['type'] == 'PUBLISH' and p['qos'] > int(prev['maxqos']):
+                    out.append(V('PUBLISH with QoS %d written at action #%d although the broker Maximum QoS is %s and '
+                                 'auto-downgrade is on' % (p['qos'], i, prev['maxqos'])))
+    return out
+
+
+# ---------------------------------------------------------------- C08: what is certainly valid must be accepted
+def mon_c08_valid(case_line, acts):
+    """a broker packet that the independent validator (mqttspec.parse_server_packet) finds certainly valid, that fits the
+    receive buffer and that is legal at that point of the connection (CONNACK only as the answer to CONNECT) must not
+    be answered with the invalid-packet error"""
+    out = []
+    rxcap = case_cfg(case_line)['rx']
+    inb = bytearray()
+    ipos = 0
+    for i, a in enumerate(acts):
+        if a.code == 0:
+            inb = bytearray()
+            ipos = 0
+        for e in a.events:
+            if e[0] == 'r' and e[2]:
+                inb += bytes.fromhex(e[3])
+        frames, tail, err = mqttspec.split_stream(inb[ipos:])
+        ipos += sum(len(raw) for _, _, raw in frames)
+        if a.result != 'err InvalidPacket' or not frames or tail or err:
+            continue
+        first, body, raw = frames[-1]
+        if len(raw) > rxcap:
+            continue
+        try:
+            p = mqttspec.parse_server_packet(first, body)
+        except (mqttspec.Malformed, mqttspec.Unsure):
+            continue
+        if (p['type'] == 'CONNACK') != (a.code == 0):
+            continue
+        out.append(V('a valid %s from the broker (%s) was answered with InvalidPacket at action #%d'
+                     % (p['type'], raw.hex()[:100], i)))
     return out
